@@ -801,6 +801,9 @@ def run_sched_workers(pid, exe, plans, outdir, res, extra_args=None, timeout=6 *
         raise SystemExit(2)   # nothing was explored at all
 
 
+CURRENT_TIER = "quick"
+
+
 def sched_replays(pid, exe, res, extra_args=None, only_search=False):
     n = 0
     for path in sorted(glob.glob(os.path.join(VERIF, "replays", pid, "*.search.txt" if only_search else "*.txt"))):
@@ -816,7 +819,10 @@ def sched_replays(pid, exe, res, extra_args=None, only_search=False):
                 os.remove(found)
             except OSError:
                 pass
-            p = subprocess.run([exe, "--prop", pid, "--search", path, "--dfs-p", "1", "--dfs-cap", "50000"] +
+            # quick: every schedule with <= 1 preemption; thorough: <= 2 (capped)
+            p = subprocess.run([exe, "--prop", pid, "--search", path] +
+                               (["--dfs-p", "2", "--dfs-cap", "30000"] if CURRENT_TIER == "thorough"
+                                else ["--dfs-p", "1", "--dfs-cap", "50000"]) +
                                (extra_args or []), capture_output=True, text=True, timeout=1800)
             if p.returncode not in (0, 2):
                 dst_dir = os.path.join(FOUND, pid, "found")
@@ -1512,6 +1518,8 @@ def main():
         print(f"VIOLATION property={a.prop} replay={a.replay}")
         return 1
     tier = a.tier if a.tier in ("quick", "thorough") else "quick"
+    global CURRENT_TIER
+    CURRENT_TIER = tier
     return CHECKS[a.prop](a.prop, tier, seed)
 
 
